@@ -126,6 +126,34 @@ ASSUME KoyamaValidity ==
     /\ ~KoyamaValid(ROne, ROne, ROne)                    \* lp below lp_min = 4/3
     /\ KoyamaValid(ROne, ROne, <<4, 3>>)                 \* exactly the freely jointed limit
     /\ KoyamaValid(ROne, <<3, 5>>, <<5, 1>>)
+\* ---- dimensional analysis of the definitions: omega(k) does not depend on the unit of length.  LenDeg is the exponent of
+\* length carried by a term (k: -1; sigma, l, lp: +1; N, n, E and numbers: 0); Bad marks a term that adds unlike quantities or
+\* feeds a dimensional quantity to exp / sin / a variable power.  The opaque Koyama kernel "kernel"(n) is, by contract, a function
+\* of the dimensionless groups k l, sigma / l, lp / l and n only: the harness binds that contract by evaluating every model with
+\* all lengths divided by s on the grid k s (clause UnitInvariant).  NonOverlappingFreelyJointedChain is left out: its documented
+\* defining sum writes the excluded-volume correction in units of the bond length (sin(k)/k, not sin(k l)/(k l)).
+Bad == 99
+LenDegOf == [k |-> -1, sigma |-> 1, l |-> 1, lp |-> 1, N |-> 0, n |-> 0, E |-> 0]
+RECURSIVE LenDeg(_)
+LenDeg(t) ==
+    LET op == t[1] IN
+    CASE op = "q" -> 0
+      [] op = "v" -> IF t[2] \in DOMAIN LenDegOf THEN LenDegOf[t[2]] ELSE Bad
+      [] op \in {"add", "sub"} -> LET a == LenDeg(t[2]) b == LenDeg(t[3]) IN IF a = Bad \/ b = Bad \/ a # b THEN Bad ELSE a
+      [] op = "mul" -> LET a == LenDeg(t[2]) b == LenDeg(t[3]) IN IF a = Bad \/ b = Bad THEN Bad ELSE a + b
+      [] op = "div" -> LET a == LenDeg(t[2]) b == LenDeg(t[3]) IN IF a = Bad \/ b = Bad THEN Bad ELSE a - b
+      [] op = "neg" -> LenDeg(t[2])
+      [] op \in {"exp", "ln", "sin"} -> IF LenDeg(t[2]) = 0 THEN 0 ELSE Bad
+      [] op = "sqrt" -> LET a == LenDeg(t[2]) IN IF a = Bad \/ a % 2 # 0 THEN Bad ELSE a \div 2
+      [] op = "pow" -> LET a == LenDeg(t[2]) IN IF a = Bad THEN Bad ELSE a * t[3]
+      [] op = "vpow" -> IF LenDeg(t[2]) = 0 /\ LenDeg(t[3]) = 0 THEN 0 ELSE Bad
+      [] op = "sum" -> IF LenDeg(t[3]) = 0 /\ LenDeg(t[4]) = 0 THEN LenDeg(t[5]) ELSE Bad
+      [] op = "fn" -> IF LenDeg(t[3]) = 0 THEN 0 ELSE Bad          \* contract of the opaque kernel, see above
+      [] OTHER -> Bad
+ASSUME UnitInvariantDefinitions ==
+    /\ \A m \in {"Gaussian", "FreelyJointedChain", "GaussianRing", "DiscreteKoyama", "SingleSite", "NoIntra", "ClosedForm", "GeometricWeightForm"} :
+          LenDeg(ModelTerms[m]) = 0
+    /\ LenDeg(TMul(k_, k_)) = -2 /\ LenDeg(TExp(k_)) = Bad /\ LenDeg(TAdd(k_, TV("sigma"))) = Bad      \* the analysis is not vacuous
 \* invariant of the object machine: a Koyama object exists only with valid parameters
 KoyamaRejectsOverlap == obj.kind = "DiscreteKoyama" => KoyamaValid(obj.par[1], obj.par[2], obj.par[3])
 =============================================================================
